@@ -38,6 +38,35 @@ Check C10_rerun_completes : forall F o ms k d e,
   fst (run [] o ms (fst (run F o ms d))) = fst (run [] o ms d) /\
   i_res (snd (run [] o ms (fst (run F o ms d)))) = Some ROk.
 
+(* a failing call makes the run fail — whichever call (except the ALTER whose result the code ignores,
+   index 1), whatever the error: if a fault point j has been reached (issued: j < number of calls made) the run
+   returned Err.  In particular a refusal by the engine is never swallowed. *)
+Theorem C10_fault_hit_aborts : forall F o ms d j,
+  In j F -> j <> 1 -> j < i_n (snd (run F o ms d)) ->
+  exists e, i_res (snd (run F o ms d)) = Some (RErr e).
+Proof. exact fault_hit_aborts. Qed.
+Print Assumptions C10_fault_hit_aborts.
+Check C10_fault_hit_aborts : forall F o ms d j,
+  In j F -> j <> 1 -> j < i_n (snd (run F o ms d)) ->
+  exists e, i_res (snd (run F o ms d)) = Some (RErr e).
+
+(* ... for every error value: fault points may carry any error text (an "already exists", a constraint
+   violation, a lost connection, …); the outcome does not depend on it — Err, and the database as it was *)
+Theorem C10_failure_value_irrelevant : forall (fe : list (nat * string)) o ms d j,
+  In j (fault_points fe) -> j <> 1 -> j < i_n (snd (run (fault_points fe) o ms d)) ->
+  (exists e, i_res (snd (run (fault_points fe) o ms d)) = Some (RErr e)) /\
+  (fst (run (fault_points fe) o ms d) = d \/ fst (run (fault_points fe) o ms d) = sql_create_vt d \/
+   fst (run (fault_points fe) o ms d) = bootstrap d) /\
+  (forall fe', map fst fe' = map fst fe -> run (fault_points fe') o ms d = run (fault_points fe) o ms d).
+Proof. exact failure_value_irrelevant. Qed.
+Print Assumptions C10_failure_value_irrelevant.
+Check C10_failure_value_irrelevant : forall (fe : list (nat * string)) o ms d j,
+  In j (fault_points fe) -> j <> 1 -> j < i_n (snd (run (fault_points fe) o ms d)) ->
+  (exists e, i_res (snd (run (fault_points fe) o ms d)) = Some (RErr e)) /\
+  (fst (run (fault_points fe) o ms d) = d \/ fst (run (fault_points fe) o ms d) = sql_create_vt d \/
+   fst (run (fault_points fe) o ms d) = bootstrap d) /\
+  (forall fe', map fst fe' = map fst fe -> run (fault_points fe') o ms d = run (fault_points fe) o ms d).
+
 (* the two statements outside the transaction are idempotent *)
 Theorem C10_bootstrap_idempotent : forall d,
   bootstrap (bootstrap d) = bootstrap d /\ sql_create_vt (bootstrap d) = bootstrap d /\ sql_alter_vt (bootstrap d) = EngErr.
@@ -68,4 +97,12 @@ Example C10_nonvacuous :
   map (fun j => crash j ex_o ex_ms (mkDb None [])) [0; 1; 10] =
   [mkDb None []; mkDb (Some (mkVt true [])) []; mkDb (Some (mkVt true [])) []] /\
   crash 11 ex_o ex_ms (mkDb None []) = mkDb (Some (mkVt true [(1%Z, "a"); (2%Z, "b")])) ["CREATE TABLE t (a)"; "ALTER 1"; "ALTER 2"].
+Proof. vm_compute. repeat split. Qed.
+
+(* non-vacuity: the engine refuses call 5 (the first CREATE TABLE: "table t already exists") — Err, nothing but
+   the bookkeeping table changed; whereas a failure of call 1 (the ignored ALTER) is swallowed by design *)
+Example C10_refusal_nonvacuous :
+  (let r := run (fault_points [(5, "table t already exists")]) ex_o ex_ms (mkDb None ["CREATE TABLE t (obstacle)"]) in
+   Nat.ltb 5 (i_n (snd r)) = true /\ i_res (snd r) = Some (RErr DatabaseError) /\ fst r = mkDb (Some (mkVt true [])) ["CREATE TABLE t (obstacle)"]) /\
+  i_res (snd (run (fault_points [(1, "duplicate column name: id")]) ex_o ex_ms (mkDb None []))) = Some ROk.
 Proof. vm_compute. repeat split. Qed.
